@@ -17,3 +17,21 @@ claim("C12", "explicit-state exploration of {emit, gc, reparse} histories over t
 claim("C20", "bounded-exhaustive enumeration x all explored feature subsets through the reference validator",
       "for every member of fixtures/struct/funcs/locals/opcensus/body and each of 26 (quick) / all 4096 (thorough) subsets of the 12 optional proposals: input valid under F implies output valid under F; plus direct MVP encoding checks",
       "feature need is defined by stand-alone wasmparser 0.214 with exactly that subset enabled", "5/C20")
+claim("C13", "bounded-exhaustive enumeration of name-section subsets, names traced back through independently forced entity maps",
+      "all 2^9 subsets of the name subsections (x3 module shapes thorough) on modules that walrus's size sort permutes, plus fixtures, x {no pass, gc}; each output name is traced to the input entity through iso maps forced by exports/markers",
+      "trusted: wasmparser 0.259 name-section reader, iso maps; tolerated: names of unused locals, label/field/tag subsections, merged types", "5/C13")
+claim("C14", "complete enumeration of the 2^6 switch combinations x input variants x round-trip counts; byte-level section inventory",
+      "finite space enumerated completely: 64 switch combinations x 20 inputs x 1..3 round trips; each switch flipped alone must change only its own section (raw section comparison); the parse callback is counted on every prefix and 7 substitutions per byte of two seeds",
+      "walrus's version string is read from /repo/Cargo.toml; DWARF inputs are synthesized by wdwarf (gimli 0.32)", "5/C14")
+claim("C15", "explicit enumeration of builder-API action histories with a lock-step reference tree",
+      "every history of <=3 (quick) / <=4 (thorough) builder actions (units appended or inserted at every instruction position, branches to every enclosing sequence, closure-built and dangling-then-attached blocks/loops/ifs) replayed on the real FunctionBuilder; the emitted body is decoded independently and compared with the reference flattening in every state",
+      "trusted: the reference tree flattening written from the wasm spec; wasmparser 0.259 decoder", "5/C15")
+claim("C16", "explicit enumeration of instruction trees x 4 visitor variants against an independent reference walk; depth family in a child process",
+      "every tree of C15's space, every operator of the census, every fixture function and nesting depth up to 10^5: dfs_in_order / dfs_pre_order_mut event logs under default and overridden hooks compared with an independent iterative walk; stack span measured inside callbacks on a 256 KiB thread",
+      "entity operands of an instruction are read off its derived Debug rendering; mutable traversal compared as multisets (the property fixes no order)", "5/C16")
+claim("C17", "explicit-state exploration of add/delete histories on every public collection against a Vec<Option<payload>> reference",
+      "all histories of add(v)/delete(any live id) up to length 6 (quick) / 8 (thorough) on each of 11 collections of a real Module; every id ever issued is resolved in every state; iteration, len, find-by-name and types.add/find de-duplication compared with the reference",
+      "absence = panic or None from the public getter; internal entry types created by FunctionBuilder are outside the modelled histories", "5/C17")
+claim("C19", "bounded-exhaustive enumeration; parse-time map interrogated inside on_parse, emit-time map through a spy custom section",
+      "every member of fixtures/struct/funcs/locals/names x {no pass, gc}: every index of every space (and one past the end) looked up in IndicesToIds and compared with the independent model of the input; IdsToIndices queried for every live id during serialisation and compared with the entity's real position in the output",
+      "trusted: wmodel decoder and iso maps (forced by anchors) to identify entities in the output", "5/C19")
